@@ -63,7 +63,9 @@ def case(draw, tier):
         c["value"] = draw(st.sampled_from(["id", ("id", "v"), None, 3]))
         c["field"] = draw(st.sampled_from([None, "agg"]))
     if op == "agg_multi":
-        c["form"] = draw(st.sampled_from(["ordereddict", "dict", "list"]))
+        # setitem: fields added by item assignment; setitem-late: some of them only after the view has been iterated once
+        c["form"] = draw(st.sampled_from(["ordereddict", "dict", "list", "setitem", "setitem-late"]))
+    c["via_config"] = draw(st.integers(0, 3)) == 0
     if op == "agg_none":
         c["spec"] = draw(st.sampled_from(["len", "list", "multi"]))
     if op == "merge":
@@ -139,6 +141,20 @@ def _keyhdr(key):
 
 
 def check(case, ctx):
+    """(the chunk size may come from petl.config.sort_buffersize instead of the argument: set while the view is built and
+    while it is iterated, restored afterwards)"""
+    import petl.config as cfg
+    old = cfg.sort_buffersize
+    try:
+        if case.get("via_config") and case["buffersize"] is not None:
+            cfg.sort_buffersize = case["buffersize"]
+            ctx.label("buffersize-via-config")
+        return _check(case, ctx)
+    finally:
+        cfg.sort_buffersize = old
+
+
+def _check(case, ctx):
     op, tbl, key = case["op"], case["table"], case["key"]
     petl_key = _keyfn if key == "callable" else key
     groups = _groups(tbl, key) if op not in ("agg_none", "valuecounts") else []
@@ -158,7 +174,7 @@ def check(case, ctx):
     kw = {}
     if presorted and op not in ("agg_none", "valuecounts", "gcdv"):
         kw["presorted"] = True
-    elif case["buffersize"] is not None and op not in ("agg_none", "valuecounts", "gcdv"):
+    elif case["buffersize"] is not None and op not in ("agg_none", "valuecounts", "gcdv") and not case.get("via_config"):
         kw["buffersize"] = case["buffersize"]
     nrows = len(tbl) - 1
     ctx.label("op:" + op, "key:" + (key if key == "callable" else type(key).__name__), "presorted" if presorted else "sorted-by-petl")
@@ -197,7 +213,15 @@ def check(case, ctx):
             if form == "list":
                 # documented list form: list of (outfield, spec...) is not supported; use OrderedDict built from a list
                 spec = collections.OrderedDict(list(MULTI))
-            got = _rows2(etl.aggregate(src, petl_key, spec, **kw))
+            if form in ("setitem", "setitem-late"):
+                agg = etl.aggregate(src, petl_key, **kw)
+                for i, (n_, sp_) in enumerate(MULTI):
+                    if form == "setitem-late" and i == len(MULTI) - 1:
+                        _rows2(agg)   # the view is used before its last output field is added
+                    agg[n_] = sp_
+                got = _rows2(agg)
+            else:
+                got = _rows2(etl.aggregate(src, petl_key, spec, **kw))
             exp = [_keyhdr(key) + tuple(n for n, _ in MULTI)] + [_keycols(key, k) + _multi_expected(g) for k, g in groups]
             got = [r[:-1] + ([tuple(x) for x in r[-1]],) if n > 0 else r for n, r in enumerate(got)]
             if got != exp:
